@@ -17,7 +17,7 @@ FAMILIES = ["none", "hdr-field", "forged", "salt-iv", "rehash-block", "resign", 
             "hdr-field", "forged", "phase", "encprivkey", "randflip", "truncate", "swapshnum", "delete",
             "server-fault", "container", "salt-iv", "flap", "rehash-block", "hdr-field", "dup-bad-copy",
             "truncate-inside", "poison-chain", "truncate-inside", "poison-chain", "truncate-inside",
-            "late-segment", "late-segment"]
+            "late-segment", "late-segment", "sibling-cap", "sibling-cap"]
 
 MAX_STEPS = 15000     # scheduler steps per read: a read of these sizes needs a few hundred
 
@@ -63,7 +63,8 @@ def run(ck):
     ck.require_reach("read-ok-despite-damage", "read-failed", "must-succeed", "forged-version-not-delivered",
                      "resigned-share-not-delivered", "older-version-delivered", "newest-delivered",
                      "uncached-reader-read", "damage-between-mapupdate-and-retrieve", "sdmf", "mdmf",
-                     "multi-segment-mdmf", "share-larger-than-mapupdate-read", "partial-read-ok")
+                     "multi-segment-mdmf", "share-larger-than-mapupdate-read", "partial-read-ok",
+                     "sibling-cap-read-ok")
 
 
 def gen_params(rng, tier):
@@ -105,6 +106,7 @@ class Damage(object):
         self.forged = False
         self.resigned = False
         self.hung = False
+        self.sibling = None         # a forged read-cap (same read key, the harness's fingerprint) opened first
 
     def note(self, s):
         if len(self.desc) < 8:
@@ -245,6 +247,8 @@ class History(object):
                 kind = rng.choice(["dbv-ro-fresh", "dbv-rw-fresh", "dbv-writer", "dbv-rw-fresh"])
             if fam == "late-segment":
                 kind = rng.choice(["dbv-rw-fresh", "dbv-writer", "dbv-rw-fresh", "dbv-ro-fresh"])
+            if fam == "sibling-cap":
+                kind = rng.choice(["dbv-ro-fresh", "dbv-ro-fresh", "version-read", "smap-dlv"])
             if rng.random() < .15 and kind in ("version-read", "smap-dlv", "smap-copy-dlv"):
                 sub = rng.choice(["salt-iv", "crossversion", "block"])
                 between = lambda: self.apply(sub, dmg, sweep)   # noqa: E731
@@ -365,6 +369,35 @@ class History(object):
             return
         if fam == "poison-chain":
             self.poison(dmg, sweep)
+            return
+        if fam == "sibling-cap":
+            # A holder of the read-cap (with the servers' help) stores a complete version signed with HIS key under the
+            # file's storage index, encrypted under the file's read key, and hands the victim the sibling cap
+            # <same read key>:<fingerprint of his key>.  The victim's client opens that cap first and keeps the node alive;
+            # a read through the genuine read-cap must still never deliver his text.
+            from allmydata.util import hashutil
+            from allmydata import uri as _uri
+            shares = [x for x in M.disk_shares(g, self.si) if x[2].fmt is not None]
+            if not shares:
+                raise Skip("no shares")
+            sample = shares[0][2]
+            text = b"SIBLING:" + rng.randbytes(rng.choice([20, 300, len(self.published[-1]) or 20]))
+            forged = M.forge_version(p["fmt"], self.readkey, self.k2[0], self.k2_der,
+                                     sample.f["seqnum"] + rng.choice([0, 1, 5]), text, sample.f["k"], sample.f["N"],
+                                     p["segsize"], rng)
+            keep_genuine = rng.choice([0, 0, 1, max(0, sample.f["k"] - 1)])
+            for n_, (idx, shnum, ms) in enumerate(sorted(shares, key=lambda x: -x[1])):
+                if n_ < keep_genuine or shnum not in forged:
+                    continue
+                ms.replace_data(forged[shnum])
+                ms.save()
+                dmg.changed += 1
+            genuine = _uri.from_string(self.ro_uri)
+            fp = hashutil.ssk_pubkey_fingerprint_hash(self.k2_der)
+            dmg.sibling = genuine.__class__(genuine.readkey, fp).to_string()
+            dmg.forged = True
+            dmg.note("forged version under the harness key in every share but %d; sibling cap with that key's "
+                     "fingerprint opened first by the same client" % keep_genuine)
             return
         if fam == "late-segment":
             # multi-segment file: the shares a first (bounded) survey finds are all damaged in a block of a LATER
@@ -817,6 +850,13 @@ class History(object):
         ck, rng, g, p = self.ck, self.rng, self.g, self.p
         newest = self.published[-1]
         c2 = g.make_client(k=p["k"], happy=1, n=p["n"], mutable_format=p["fmt"])
+        sibling_node = None
+        if dmg.sibling is not None:
+            # the same client (one NodeMaker, one node cache) meets the forged sibling cap first and keeps the node
+            sibling_node = c2.create_node_from_uri(dmg.sibling)
+            st_s, r_s = g.wait(sibling_node.download_best_version(), horizon=4 * 3600.0, max_steps=MAX_STEPS)
+            ck.hit("sibling-cap-read-" + st_s)
+            self._keep_alive = sibling_node
         good0, older0 = self.truth(dmg)
         del g.calls[:]
         steps0 = g.sched.steps
@@ -844,7 +884,7 @@ class History(object):
             status, res = g.wait(node.download_best_version(), horizon=4 * 3600.0, max_steps=MAX_STEPS)
             data = res if status == "ok" else None
         elif kind == "version-read":
-            node = c2.create_node_from_uri(self.ro_uri if rng.random() < .6 else self.rw_uri)
+            node = c2.create_node_from_uri(self.ro_uri if (rng.random() < .6 or dmg.sibling) else self.rw_uri)
             status, ver = g.wait(node.get_best_readable_version(), horizon=4 * 3600.0)
             res = ver
             if status == "ok":
@@ -862,7 +902,7 @@ class History(object):
                 data = cons.value() if status == "ok" else None
                 streamed = cons.value()
         else:
-            node = c2.create_node_from_uri(self.ro_uri if rng.random() < .6 else self.rw_uri)
+            node = c2.create_node_from_uri(self.ro_uri if (rng.random() < .6 or dmg.sibling) else self.rw_uri)
             status, smap = g.wait(node.get_servermap(MODE_READ), horizon=4 * 3600.0)
             res = smap
             if status == "ok":
